@@ -252,9 +252,21 @@ pub fn shape(t: i32, r: &mut Rng, c: &Cfg) -> Shape {
         1 => Shape::Point(p2(r, c)),
         21 => Shape::PointM(pm(r, c)),
         11 => Shape::PointZ(pz(r, c)),
-        8 => Shape::Multipoint(Multipoint::new(vec_of(r, 1, ml, |r| p2(r, c)))),
-        28 => Shape::MultipointM(MultipointM::new(vec_of(r, 1, ml, |r| pm(r, c)))),
-        18 => Shape::MultipointZ(MultipointZ::new(vec_of(r, 1, ml, |r| pz(r, c)))),
+        8 => {
+            // both public constructors: `new` and `From<Vec<_>>`
+            let v = vec_of(r, 1, ml, |r| p2(r, c));
+            Shape::Multipoint(if r.chance(0.3) { Multipoint::from(v) } else { Multipoint::new(v) })
+        }
+        28 => {
+            // both public constructors: `new` and `From<Vec<_>>`
+            let v = vec_of(r, 1, ml, |r| pm(r, c));
+            Shape::MultipointM(if r.chance(0.3) { MultipointM::from(v) } else { MultipointM::new(v) })
+        }
+        18 => {
+            // both public constructors: `new` and `From<Vec<_>>`
+            let v = vec_of(r, 1, ml, |r| pz(r, c));
+            Shape::MultipointZ(if r.chance(0.3) { MultipointZ::from(v) } else { MultipointZ::new(v) })
+        }
         3 => Shape::Polyline(Polyline::with_parts(vec_of(r, 1, mp, |r| vec_of(r, 2, ml.max(2), |r| p2(r, c))))),
         23 => Shape::PolylineM(PolylineM::with_parts(vec_of(r, 1, mp, |r| vec_of(r, 2, ml.max(2), |r| pm(r, c))))),
         13 => Shape::PolylineZ(PolylineZ::with_parts(vec_of(r, 1, mp, |r| vec_of(r, 2, ml.max(2), |r| pz(r, c))))),
